@@ -27,6 +27,16 @@ def jobs_C06(tier, seed):
             + shards('queue', 'tsan', 10, 5, 3600, scale=0.15))
 
 
+def seq_jobs(target, nq, nt, asan_scale=0.4, tsan_scale=0.15, threads=5, quick_scale=None):
+    def jobs(tier, seed):
+        if tier == 'quick':
+            return (shards(target, 'dbg', nq, threads, 900, scale=quick_scale) + shards(target, 'asan', nq, threads, 900, scale=asan_scale * (quick_scale or 1))
+                    + shards(target, 'tsan', nq, threads, 900, scale=tsan_scale * (quick_scale or 1)))
+        return (shards(target, 'dbg', nt, threads, 5400) + shards(target, 'rel', nt, threads, 5400) + shards(target, 'asan', nt, threads, 5400, scale=asan_scale)
+                + shards(target, 'tsan', nt, threads, 5400, scale=tsan_scale))
+    return jobs
+
+
 def jobs_smr_hp(tier, seed):
     # the harness selects HP configurations for C01, DHP for C02, both for C03 (from --prop)
     if tier == 'quick':
@@ -54,4 +64,10 @@ PROPS = {
         'mechanisms_required': ['ms.onBadTail', 'ms.onEnqueueRace', 'ms.onDequeueRace', 'basket.onTryAddBasket', 'basket.onAddBasket',
                                 'optimistic.onFixList', 'fc.onCombining', 'fc.onCollide', 'fc.onPassiveToCombiner'],
     },
+    'C07': {'jobs': seq_jobs('bounded', 5, 9), 'mechanisms_required': ['vyukov.enqueue_full', 'vyukov.dequeue_empty']},
+    'C08': {'jobs': seq_jobs('bounded', 5, 5), 'mechanisms_required': ['segq.onSegmentCreated', 'segq.onSegmentDeleted', 'segq.onPushContended', 'segq.onPopContended']},
+    'C09': {'jobs': seq_jobs('stack', 7, 13, threads=7, quick_scale=0.5),
+            'mechanisms_required': ['treiber.onPushRace', 'treiber.onPopRace', 'treiber.onActiveCollision', 'treiber.onPassiveCollision', 'fc.onCollide', 'fc.onCombining']},
+    'C10': {'jobs': seq_jobs('deque_pq', 5, 9, quick_scale=0.5), 'mechanisms_required': ['fcdeque.onCollide', 'fcdeque.onCombining', 'fcdeque.onPassiveToCombiner']},
+    'C11': {'jobs': seq_jobs('deque_pq', 5, 9), 'mechanisms_required': ['fcpq.onCombining', 'mspq.onPushFailed', 'mspq.onPushHeapifySwap', 'mspq.onPopHeapifySwap', 'mspq.onItemMovedTop']},
 }
